@@ -47,7 +47,8 @@ def plusImage (cap : Nat) (s1 s2 : Ivs) : Ivs := pmImage2 cap plusParts plusI s1
 def minusImage (cap : Nat) (s1 s2 : Ivs) : Ivs := pmImage2 cap plusParts minusI s1 s2
 def mulImage (cap : Nat) (s1 s2 : Ivs) : Ivs := pmImage2 cap mulParts mulI s1 s2
 
-/-- integer `sum()` aggregate: image = `multiply().super_image(element type × list size)` -/
-def sumImage (cap : Nat) (elems sizes : Ivs) : Ivs := mulImage cap elems sizes
+/-- integer `sum()` aggregate: image = `multiply().super_image(hull of the element type × list size)`
+(the hull was added by the repair of the union-of-intervals defect, /repo commit "fix: range of sum over a union …") -/
+def sumImage (cap : Nat) (elems sizes : Ivs) : Ivs := mulImage cap (simplify cap (hull elems)) sizes
 
 end Qrlew
